@@ -8,7 +8,8 @@ import shutil
 import subprocess
 import tempfile
 import time
-from .common import CACHE, PEGVERIF, TARGET, build_harness, log
+from .common import CACHE, PEGVERIF, TARGET, REPO, CARGO_ENV, Lock, build_harness, log
+from .common import run as run_cmd
 
 PVUNIT = os.path.join(TARGET, 'debug', 'pvunit')
 PVGEN = os.path.join(TARGET, 'debug', 'pvgen')
@@ -94,11 +95,30 @@ def pretty_cases(seed, tier):
     return cases
 
 
+NOCOLOR_DIR = os.path.join(os.path.dirname(os.path.dirname(os.path.dirname(os.path.abspath(__file__)))), 'harness', 'nocolor')
+NOCOLOR_BIN = os.path.join(CACHE, 'target-nocolor', 'debug', 'pvnocolor')
+
+
+def run_nocolor(ops):
+    """the same ops through a build of the runtime WITHOUT its `colored` feature (separate workspace: no feature unification)"""
+    with Lock('nocolor-build'):
+        if not os.path.exists(os.path.join(NOCOLOR_DIR, 'Cargo.lock')):
+            shutil.copy(os.path.join(REPO, 'Cargo.lock'), os.path.join(NOCOLOR_DIR, 'Cargo.lock'))
+        env = dict(CARGO_ENV, CARGO_TARGET_DIR=os.path.join(CACHE, 'target-nocolor'))
+        p, dt = run_cmd(['cargo', 'build', '--offline'], cwd=NOCOLOR_DIR, env=env)
+        if p.returncode != 0:
+            raise RuntimeError('no-colour build of the runtime failed: ' + p.stderr[-1500:])
+    q = subprocess.run([NOCOLOR_BIN], input='\n'.join(ops) + '\n', stdout=subprocess.PIPE, stderr=subprocess.DEVNULL, text=True, timeout=1800)
+    out = q.stdout.splitlines()
+    return out + ['CRASH rc=%s' % q.returncode] * (len(ops) - len(out))
+
+
 def run_C11(seed, tier):
     t0 = time.time()
     cases = pretty_cases(seed, tier)
     ops = ['pretty %s %d %s' % (hx(t), p, hx(f) if f is not None else '-') for t, p, f in cases]
     impl, model = run_unit(ops)
+    plain = run_nocolor(ops)
     res = dict(evaluations=len(cases), nontrivial=set(), samples=[], strict=[], prop=[], distribution=collections.Counter())
     for (t, p, f), i, m in zip(cases, impl, model):
         exp = expected_pretty(t, p, f)
@@ -121,6 +141,21 @@ def run_C11(seed, tier):
             rp2 = dict(rp)
             rp2['what'] = 'PrettyParseError output: model vs implementation'
             res['strict'].append(rp2)
+    # the build without the `colored` feature must print the same text
+    res['distribution']['outputs of the build without the colored feature compared'] = len(plain)
+    for (t, p, f), i, m in zip(cases, plain, model):
+        res['evaluations'] += 1
+        if i != m:
+            rp = dict(kind='unit', what='', op='pretty', text=t, text_hex=hx(t), position=p, file=f, impl=i, model=m, build='default-features = false')
+            exp = expected_pretty(t, p, f)
+            got = bytes.fromhex(i[2:]).decode(errors='replace') if i.startswith('P ') else i
+            if got != exp:
+                rp['what'] = 'built without the `colored` feature, the pretty error does not point at line/column of the position'
+                rp['expected'], rp['got'] = exp, got
+                res['prop'].append(rp)
+            else:
+                rp['what'] = 'PrettyParseError output (no-colour build): model vs implementation'
+                res['strict'].append(rp)
         if len(res['samples']) < 4 and kind in ('eol', 'eof', 'bol') and len(t) < 8 and len(res['samples']) < 4 and hash((t, p)) % 50 == 0:
             res['samples'].append(dict(text=t, position=p, file=f, output=got))
     if not res['samples']:
